@@ -23,7 +23,7 @@ RULE = ('histories of parse(document, context, flags) calls sharing one process,
 ASSUMPTIONS = ['the freeze() flag set by the walker is excluded from the database snapshot',
                'fresh results come from subprocesses started with the same PYTHONHASHSEED']
 NSHARDS = 16
-RECIPES = ['default', 'every', 'extended', 'extra', 'extdelta']
+RECIPES = ['default', 'every', 'extended', 'extra', 'extdelta', 'extdelta2', 'options']
 
 SUSPICIOUS = [
     ['every', '\\mv{a{b}c}d'],
@@ -57,7 +57,39 @@ UNKNOWN_NAMES = [
     ['extdelta', '\\begin{unkenva}\\entry[a]b\\end{unkenva}'],
     ['extdelta', '\\begin{unkenvb}\\entry[a]b\\end{unkenvb}'],
 ]
-SUSPICIOUS_MORE = SUSPICIOUS_MORE + UNKNOWN_NAMES
+# a parse that aborts inside an argument / body parser (something still open at the end of the
+# input), and a well-formed use of the same parser class with other delimiters or contents;
+# other parameterisations of the standard argument letters (options context: r(), d(), t!, e{_}
+# next to the every-type context's r<>, d<>, t+, e{^_}: the parser objects are cached globally)
+ABORTED = [
+    ['every', '\\mv{a{b}c'], ['every', '\\mv|x{|\\mv(y)'], ['every', '\\mr<a'], ['every', '\\mr<x>y\\md<z>'],
+    ['every', '\\mo[a'], ['every', '\\me^{a'], ['every', '\\mcombob*+[o]<d>{m}\\mopt[a]\\mmand b!{c}'],
+    ['extra', '\\mcomma{a,b'], ['extra', '\\mchars{a'], ['extra', '\\begin{vcode}ab'],
+    ['extra', '\\begin{vcode}\nx{\\end{vcode}\\msn{a}\\many(b)\\mm c\\begin{eenv}[o]{m}d\\end{eenv}'],
+    ['extra', '\\many(a'], ['extra', '\\many[b]\\many<c>'],
+    ['options', '\\orr(a'], ['options', '\\orr(x)y\\odd(a)\\ott!\\oee_a\\oom{a}[b]'],
+    ['options', '\\omark+{a}-{b}\\omarkb++{c}\\omarkg+{d}\\osn e\\ofull{f}\\onosp{g}\\oonosp[h]{i}'],
+    ['options', '\\olegacy*[a]{b}\\olegns [a]{b}\\begin{oenv}*(a){b}c\\end{oenv}'],
+    ['options', '\\olegacy*[a'], ['options', '\\begin{oenv}(a'],
+    ['default', '\\begin{lstlisting}[a]b{\\end{lstlisting}\\verb|x|'], ['default', '\\begin{lstlisting}[a'],
+    ['default', '\\verb|x'],
+    ['extdelta2', '\\begin{defenv}\\entry[a]b\\end{defenv}\\entry[c]'],
+    ['extdelta2', '\\entry[b]\\auto[x]{y}\\begin{defenvb}[o]\\entry{a}{b}\\end{defenvb}'],
+]
+SUSPICIOUS_MORE = SUSPICIOUS_MORE + UNKNOWN_NAMES + ABORTED
+
+
+def soup_pool(n=12):
+    """deterministic token soups over the tokens of the extra / options contexts"""
+    import zlib
+    from ..contexts import EXTRA_TOKENS, OPTIONS_TOKENS
+    out = []
+    for recipe, toks in (('extra', EXTRA_TOKENS), ('options', OPTIONS_TOKENS)):
+        for i in range(n):
+            h = zlib.crc32(('%s/%d' % (recipe, i)).encode())
+            src = ''.join(toks[(h >> (5 * j)) % len(toks)] for j in range(5))
+            out.append([recipe, src])
+    return out
 
 
 def grammar_pool(n=48, seed=20260104):
@@ -75,7 +107,7 @@ def grammar_pool(n=48, seed=20260104):
     return got
 
 
-POOL = SUSPICIOUS + SUSPICIOUS_MORE + grammar_pool() + [
+POOL = SUSPICIOUS + SUSPICIOUS_MORE + grammar_pool() + soup_pool() + [
     ['every', '\\mt+\\mt \\md<a>\\md x'],
     ['every', '\\mstar*\\ms \\mo[a[b]c]'],
     ['every', '\\begin{eenv}[o]{m}body\\end{eenv}\\begin{emath}x\\end{emath}'],
@@ -114,6 +146,7 @@ def db_snapshot(db):
         es = [(s.environmentname, id(s), repr(s)) for s in db.iter_environment_specs(categories=[cat])]
         ss = [(s.specials_chars, id(s), repr(s)) for s in db.iter_specials_specs(categories=[cat])]
         snap.append((cat, ms, es, ss))
+    snap.append(('categories', list(db.categories())))
     unk = tuple((id(x), repr(x)) for x in (db.get_macro_spec('no such macro zzz'),
                                            db.get_environment_spec('no such env zzz'),
                                            db.get_specials_spec('\x00zz')))
@@ -267,12 +300,15 @@ def run_shard(shard, res):
                         h = h + [h[0]]
                         record(h, run_history_forked(h, table), res)
                     i += 1
-        if k == 0:
-            for doc in SUSPICIOUS_MORE:
-                for other in SUSPICIOUS_MORE:
-                    for tol in (False, True):
-                        h = [(doc[0], doc[1], tol), (other[0], other[1], tol), (doc[0], doc[1], tol)]
-                        record(h, run_history_forked(h, table), res)
+        j = 0
+        for doc in SUSPICIOUS_MORE:
+            for other in SUSPICIOUS_MORE:
+                for tol in (False, True):
+                    j += 1
+                    if j % NSHARDS != k:
+                        continue
+                    h = [(doc[0], doc[1], tol), (other[0], other[1], tol), (doc[0], doc[1], tol)]
+                    record(h, run_history_forked(h, table), res)
         res.exhaustive = True
     else:
         _, n, maxlen, seed = shard
